@@ -4,4 +4,4 @@ Require Import ExtrOcamlBasic.
 From Coq Require Import ZArith.
 From Verif.C06 Require Import Extracted Model Spec.
 Extraction "model_ml.ml" chunks_impl cuts bounds_ok params_ok rabin_accepts
-  fixed_impl fixed_cuts fixed_bounds_ok fixed_accepts tab_of win_at is_cut fp_direct a_fifo a_hash Z.of_N.
+  fixed_impl fixed_cuts fixed_bounds_ok fixed_accepts tab_of win_at is_cut fp_direct a_fifo a_hash poly_accepts Z.of_N.
